@@ -944,8 +944,41 @@ def r8_9(ctx):
     ctx.floor("R8.9", n, 2, "grammar patterns with samples")
 
 
+def r8_1b(ctx):
+    """The caller of parse() answers a BadCommand with `<tag> BAD ...`, taking the tag from the command object - so the object
+    is bound to its name *before* parse() is called on it (construction and parse are two statements).  Chained into one
+    expression (`cmd = IMAPClientCommand(msg).parse()`) the name is still unbound - or still holds the previous command -
+    when the handler runs: the BAD carries the tag of an earlier command, or the handler itself fails (UnboundLocalError)
+    and the connection is dropped without any reply."""
+    p = ctx.p
+    n = 0
+    for key in ("user_server.IMAPClientProxy.run", "server.IMAPSubprocessInterface.unauthenticated"):
+        fi = p.func(key)
+        for t in [x for x in body_walk(fi.node) if isinstance(x, ast.Try)]:
+            hs = [h for h in t.handlers if h.type is not None and any(norm(tt).split(".")[-1] in ("BadCommand", "BadSyntax") for tt in (h.type.elts if isinstance(h.type, ast.Tuple) else [h.type]))]
+            if not hs:
+                continue
+            used = {x.value.id for h in hs for x in ast.walk(h) if isinstance(x, ast.Attribute) and x.attr == "tag" and isinstance(x.value, ast.Name)}
+            if not used:
+                continue
+            ctx.analysed(fi)
+            for nm in sorted(used):
+                n += 1
+                defs = [s_ for s_ in t.body if isinstance(s_, ast.Assign) and any(isinstance(tg, ast.Name) and tg.id == nm for tg in s_.targets)]
+                if not defs:
+                    continue  # bound outside the try: nothing of this try can leave it unbound
+                d0 = defs[0]
+                raises = any(call_name(c) in ("parse", "parse_cmd_from_msg") for c in calls_in(d0.value))
+                if raises:
+                    ctx.bad("R8.1", fi.module, fi.qual, norm(d0, 80), f"`{nm}` is bound by the same statement that can raise BadCommand: in the handler that reads `{nm}.tag` it is unbound (first command: the handler fails, the connection is dropped without a BAD) or still the previous command (the BAD carries the wrong tag and the client waits for ever for this one)", d0.lineno)
+                else:
+                    ctx.ok("R8.1", where(fi), f"`{nm}` is bound before parse() is called on it: the handler's `{nm}.tag` is this command's")
+    ctx.floor("R8.1b", n, 1, "BadCommand handlers that read the command's tag")
+
+
 def run(ctx):
     ctx.do(r8_1)
+    ctx.do(r8_1b)
     ctx.do(r8_2)
     ctx.do(r8_3)
     ctx.do(r8_4)
